@@ -3,7 +3,7 @@
 # named (evidence/replays go to a throw-away VERIF_DIR so that committed evidence only ever comes from the
 # unchanged tree), then restore /repo. Prints one line per check: <id> exit=<n> and the VIOLATION lines.
 set -u
-patch=$1; shift
+patch=$(readlink -f "$1"); shift
 cd /repo || exit 2
 if [ -n "$(git status --porcelain)" ]; then echo "/repo is not clean"; exit 2; fi
 git apply "$patch" || { echo "patch does not apply"; exit 2; }
